@@ -38,6 +38,11 @@ UN = {
     "has": ("has({0}) ? 7 : 0", lambda v: 7, 2),
     "coalesce": ("coalesce({0}, 0)", lambda v: v, 2),
     "nestedmap": ("[[0]].map(r, r.map(e, {0})[0])[0]", lambda v: v, 3),
+    # the same macros over a map receiver (their loops are separate code paths)
+    "mapbody_m": ("{{'k': 0}}.map(e, {0})[0]", lambda v: v, 2),
+    "filterbody_m": ("size({{'k': 0}}.filter(e, {0} > -1000)) == 1 ? 5 : 6", lambda v: 5, 3),
+    "existsone": ("[0].exists_one(e, {0} > -1000) ? 1 : 0", lambda v: 1, 2),
+    "map3": ("[0].map(e, {0} > -1000, {0})[0]", lambda v: v, 2),
 }
 BIN = {
     "add": ("{0} + {1}", lambda a, b: a + b),
